@@ -50,7 +50,7 @@ FEATURE = {  # construct a program must contain to count as non-trivial for the 
 }
 
 HOSTILE_SHARE = 0.2
-HOSTILE_FAMILIES = ['candidate_none', 'switch_unknown_label', 'dup_param']
+HOSTILE_FAMILIES = ['candidate_none', 'switch_unknown_label']
 
 
 class Acc:
@@ -100,7 +100,7 @@ def _tagcount(acc, prog):
 def gen_prog(rng, prop, hostile_ok=True):
     prof = dict(PROFILES[prop])
     if hostile_ok and rng.random() < HOSTILE_SHARE:
-        prof['hostile'] = rng.choice(HOSTILE_FAMILIES)
+        prof['hostile'] = rng.choice(HOSTILE_FAMILIES + (['dup_param'] if prop == 'C03' else []))
     return gen.gen_program(rng, prof)
 
 
